@@ -134,3 +134,13 @@ package parser
 //@   except (*ParseError).Unwrap
 //@   ensures  @C13 implies(err != nil, structured(err) || isctx(err))
 //@   ensures  @C11 implies(err != nil && causectx(err), isctx(err))
+
+// Returned token slices belong to the caller (C09): they are allocated by the call, never a view of the converter's
+// scratch buffer (which the next conversion overwrites).
+//@ func (*tokenConverter).convert
+//@   ensures @C09 implies(err == nil, isnew(result0.Tokens) && isnew(result0.PositionMapping))
+//@   loop * invariant @C09 isnew(positions)
+//@ func convertModelTokens
+//@   ensures @C09 implies(err == nil, isnew(result0))
+//@ func convertModelTokensWithPositions
+//@   ensures @C09 implies(err == nil, isnew(result0.Tokens) && isnew(result0.PositionMapping))
